@@ -87,15 +87,22 @@ Section TextWeave.
 End TextWeave.
 
 (* the generated grammar satisfies the conditions of the boundary theorem *)
-Lemma find_boundaries cfg t es : find cfg t = Done es -> Forall (fun e => bnd t (e_pos e)) es.
+Lemma the_gok : grammar_ok the_params "file"%string RNormal false
+                  (ESeq ESoi (ESeq (ERep (EChoice r_log_macro (EChoice r_other_name EAny))) EEoi)).
 Proof.
-  assert (Hgok : grammar_ok the_params "file"%string RNormal false
-                   (ESeq ESoi (ESeq (ERep (EChoice r_log_macro (EChoice r_other_name EAny))) EEoi))).
-  { unfold grammar_ok. cbn [p_file the_params p_ws p_comment]. unfold g_file, r_file.
-    split; [reflexivity|]. split; [reflexivity|]. split; [vm_compute; reflexivity|]. split; vm_compute; reflexivity. }
-  assert (Hfo : first_ok the_first (p_file the_params) = true) by (vm_compute; reflexivity).
-  exact (entries_bnd the_params _ _ _ _ Hgok Hfo cfg t es).
+  unfold grammar_ok. cbn [p_file the_params p_ws p_comment]. unfold g_file, r_file.
+  split; [reflexivity|]. split; [reflexivity|]. split; [vm_compute; reflexivity|]. split; vm_compute; reflexivity.
 Qed.
+Lemma the_fo : first_ok the_first (p_file the_params) = true.
+Proof. vm_compute. reflexivity. Qed.
+
+Lemma find_boundaries cfg t es : find cfg t = Done es -> Forall (fun e => bnd t (e_pos e)) es.
+Proof. exact (entries_bnd the_params _ _ _ _ the_gok the_fo cfg t es). Qed.
+
+(* the line and column every entry carries are the line and column of its byte offset *)
+Theorem find_line_col cfg t es :
+  find cfg t = Done es -> Forall (fun e => line_col t (e_pos e) = Some (e_line e, e_col e)) es.
+Proof. exact (entries_line_col the_params _ _ _ _ the_gok the_fo cfg t es). Qed.
 
 Lemma fmt_ok_ascii e id c : fmt_ok the_params e -> In c (insertable the_params e id) -> c < 128.
 Proof.
